@@ -566,7 +566,8 @@ def concretise(desc, rng):
             v = t
         d = {"time": v, "width": rng.choice([20, 37.5, 60]), "id": i + 1}
         if rng.random() < 0.7:
-            d["text"] = "item %d" % (i + 1)
+            # any text: ASCII, XML-special, accented (precomposed and combining), CJK, compatibility characters
+            d["text"] = ("item %d" % (i + 1)) if rng.random() < 0.5 else "%s %d" % (rng.choice(TEXT_POOL + ["e\u0301te\u0301", "\u0301x", "A\u030a"]), i + 1)
         data.append(d)
     if desc["opts"] == "omitted":
         opts = None
